@@ -4,6 +4,7 @@ package main
 
 import (
 	"fmt"
+	"strings"
 	"go/token"
 	"go/types"
 
@@ -194,6 +195,12 @@ func (fr *Frame) loadFrom(addrV ssa.Value, addr *Term, T types.Type, st *State) 
 		} else {
 			// values read from the global region are global, others are not
 			fr.assumeG(ex.validValAt(res, T, addr))
+			if rootIsPre(res) {
+				// memory untouched since function entry holds only objects that existed then
+				for _, r := range refParts(res, T) {
+					fr.assumeG(Or(Eq(r, Null), ILe(Acc("rid", r), ex.A0)))
+				}
+			}
 		}
 	}
 	return res
@@ -278,11 +285,31 @@ func (fr *Frame) binop(op token.Token, a, b *Term, ta, tb types.Type, pos token.
 		case token.SUB:
 			return BVSub(a, b)
 		case token.MUL:
-			return BVMul(a, b)
+			return fr.mulOp(a, b)
 		case token.QUO, token.REM:
 			fr.obl("divzero", pos, Neq(b, BVLit(0, w)), "C13")
 			o := map[bool]map[token.Token]string{true: {token.QUO: "bvsdiv", token.REM: "bvsrem"}, false: {token.QUO: "bvudiv", token.REM: "bvurem"}}[sg][op]
-			return bvDivRem(o, a, b)
+			if _, isLit := b.BVVal(); isLit || w < 64 {
+				return bvDivRem(o, a, b)
+			}
+			// 64-bit division by a symbolic divisor: uninterpreted, with the linear facts that hold for it
+			r := UF(fmt.Sprintf("%s%d", o, w), a.Sort, a, b)
+			zero := BVLit(0, w)
+			if sg {
+				pos := And(BVSle(zero, a), BVSlt(zero, b))
+				if op == token.QUO {
+					fr.assumeG(Implies(pos, And(BVSle(zero, r), BVSle(r, a))))
+				} else {
+					fr.assumeG(Implies(pos, And(BVSle(zero, r), BVSlt(r, b))))
+				}
+			} else {
+				if op == token.QUO {
+					fr.assumeG(BVUle(r, a))
+				} else {
+					fr.assumeG(Implies(Neq(b, zero), BVUlt(r, b)))
+				}
+			}
+			return r
 		case token.AND:
 			return BVAnd(a, b)
 		case token.OR:
@@ -742,7 +769,7 @@ func (fr *Frame) constStrLen(s *Term) (int, bool) {
 }
 
 func (fr *Frame) stringOfBytes(b *Term, E types.Type, st *State) *Term {
-	arr := Select(st.amem(E), Acc("sbase", b))
+	arr := st.arr(E, Acc("sbase", b))
 	off, ln := Acc("soff", b), Acc("slen", b)
 	r := UF("str_of_bytes", SStr, arr, off, ln)
 	fr.assumeG(Eq(StrLen(r), ln))
@@ -755,3 +782,38 @@ func (fr *Frame) stringOfBytes(b *Term, E types.Type, st *State) *Term {
 }
 
 func (fr *Frame) fmtPos(pos token.Pos) string { return fmt.Sprint(prog.posString(pos)) }
+
+// rootIsPre: the term is a (nested) select on an entry-state memory array.
+func rootIsPre(t *Term) bool {
+	for t.Op == "select" {
+		t = t.Args[0]
+	}
+	return t.Op == "var" && strings.HasSuffix(t.Name, "@pre")
+}
+
+// mulOp: multiplication.  A 64-bit product of two symbolic operands is kept
+// as an uninterpreted (commutative) function, with (x+c)*y distributed, so that
+// queries that do not depend on the product's value are not bit-blasted.
+func (fr *Frame) mulOp(a, b *Term) *Term {
+	w := a.Sort.W
+	_, la := a.BVVal()
+	_, lb := b.BVVal()
+	if la || lb || w < 64 {
+		return BVMul(a, b)
+	}
+	// distribute a small constant addend
+	if a.Op == "bvadd" {
+		if c, ok := a.Args[1].BVVal(); ok && signed(c, w) >= -4 && signed(c, w) <= 4 {
+			return BVAdd(fr.mulOp(a.Args[0], b), BVMul(a.Args[1], b))
+		}
+	}
+	if b.Op == "bvadd" {
+		if c, ok := b.Args[1].BVVal(); ok && signed(c, w) >= -4 && signed(c, w) <= 4 {
+			return BVAdd(fr.mulOp(a, b.Args[0]), BVMul(a, b.Args[1]))
+		}
+	}
+	if a.id > b.id {
+		a, b = b, a
+	}
+	return UF("mul64", a.Sort, a, b)
+}
